@@ -185,106 +185,159 @@ impl PacketT {
     }
 }
 
+/// Incremental renderer of one link: pages and stop pages one at a time (used by the product search, which
+/// extends a history by one packet), keeping the value registers of the grammar (orbit per HBF, BC per trigger,
+/// the interrupted TDH, packet counter).
+#[derive(Clone, Debug)]
+pub struct LinkRenderer {
+    pub cfg: LinkCfg,
+    pub hbf: usize,
+    pub page: usize,
+    pub trig_no: u16,
+    pub open_tdh: Option<Tdh>,
+    pub pkt_counter: u8,
+    /// orbits cycle with this period when set (finite value domain for fixpoint searches)
+    pub orbit_cycle: Option<u32>,
+}
+
+impl LinkRenderer {
+    pub fn new(cfg: &LinkCfg) -> Self {
+        LinkRenderer { cfg: cfg.clone(), hbf: 0, page: 0, trig_no: 0, open_tdh: None, pkt_counter: 0, orbit_cycle: None }
+    }
+    pub fn orbit(&self) -> u32 {
+        let i = match self.orbit_cycle {
+            Some(c) => (self.hbf as u32) % c,
+            None => self.hbf as u32,
+        };
+        self.cfg.first_orbit.wrapping_add(i)
+    }
+    fn trg(&self) -> u32 {
+        self.cfg.triggers[self.hbf % self.cfg.triggers.len()]
+    }
+    fn rdh_bc(&self) -> u16 {
+        self.cfg.rdh_bcs[self.hbf % self.cfg.rdh_bcs.len()]
+    }
+    fn mk_rdh(&mut self, stop: u8) -> Rdh {
+        let mut r = Rdh::base();
+        r.header_id = self.cfg.rdh_version;
+        r.fee_id = self.cfg.fee_id;
+        r.link_id = self.cfg.link_id;
+        r.packet_counter = self.pkt_counter;
+        r.cru_id = self.cfg.cru_id;
+        r.dw = self.cfg.dw;
+        r.bc = self.rdh_bc();
+        r.orbit = self.orbit();
+        r.data_format = self.cfg.data_format;
+        r.trigger_type = self.trg();
+        r.pages_counter = self.page as u16;
+        r.stop_bit = stop;
+        r.detector_field = self.cfg.detector_field;
+        self.pkt_counter = self.pkt_counter.wrapping_add(1);
+        r
+    }
+    fn next_tdh(&mut self, no_data: bool) -> Tdh {
+        let bc = self.rdh_bc() + self.trig_no * self.cfg.bc_step;
+        assert!(bc <= 0xdeb, "grammar BC overflow");
+        let first_of_hbf = self.trig_no == 0;
+        self.trig_no += 1;
+        Tdh {
+            // the first trigger of the HBF mirrors the RDH (required on page 0 for internal / PhT triggers)
+            trigger_type: if first_of_hbf || !self.cfg.internal { (self.trg() & 0xFFF) as u16 } else { 0 },
+            internal: self.cfg.internal,
+            no_data,
+            continuation: false,
+            bc,
+            orbit: self.orbit(),
+        }
+    }
+    pub fn is_open(&self) -> bool {
+        self.open_tdh.is_some()
+    }
+
+    /// Renders the next data page of the current HBF.
+    pub fn next_page(&mut self, p: &PageShape) -> PacketT {
+        assert_eq!(p.cont.is_some(), self.open_tdh.is_some(), "continuation page iff an event is open");
+        let mut ws: Vec<(Word, WKind)> = Vec::new();
+        let mask = self.cfg.active_lanes_mask();
+        if let Some((dws, done)) = &p.cont {
+            let t = self.open_tdh.unwrap();
+            ws.push((words::ihw(mask), WKind::IhwCont));
+            ws.push((Tdh { continuation: true, ..t }.encode(), WKind::TdhCont));
+            for d in dws {
+                ws.push((*d, WKind::Data));
+            }
+            ws.push((Tdt::done(*done), WKind::Tdt));
+            if *done {
+                self.open_tdh = None;
+            } else {
+                assert!(p.evs.is_empty());
+            }
+        } else {
+            assert!(!p.evs.is_empty(), "a page needs at least one trigger");
+            ws.push((words::ihw(mask), WKind::Ihw));
+        }
+        for (ei, e) in p.evs.iter().enumerate() {
+            assert!(self.open_tdh.is_none(), "events after an open event");
+            let first_after_ihw = ei == 0 && p.cont.is_none();
+            let kind = if first_after_ihw { WKind::Tdh } else { WKind::TdhAfter };
+            match e {
+                Ev::NoData => {
+                    let t = self.next_tdh(true);
+                    ws.push((t.encode(), kind));
+                }
+                Ev::Data { words: dws, cdw, done } => {
+                    let t = self.next_tdh(false);
+                    ws.push((t.encode(), kind));
+                    if *cdw {
+                        ws.push((words::cdw(0x0000_1234_5678, 0), WKind::Cdw));
+                    }
+                    for d in dws {
+                        ws.push((*d, WKind::Data));
+                    }
+                    ws.push((Tdt::done(*done), WKind::Tdt));
+                    if !*done {
+                        self.open_tdh = Some(t);
+                    }
+                }
+            }
+        }
+        let raw: Vec<Word> = ws.iter().map(|w| w.0).collect();
+        let payload = payload::pack(&raw, self.cfg.data_format);
+        let rdh = self.mk_rdh(0);
+        let out = PacketT {
+            packet: Packet::framed(rdh, payload),
+            words: ws.iter().enumerate().map(|(i, w)| WordTruth { index: i, bytes: w.0, kind: w.1 }).collect(),
+            hbf: self.hbf,
+            page: self.page,
+        };
+        self.page += 1;
+        out
+    }
+
+    /// Renders the stop page (DDW0) and moves on to the next HBF.
+    pub fn stop_page(&mut self) -> PacketT {
+        assert!(self.open_tdh.is_none() && self.page > 0, "an HBF ends after a closed page");
+        let ddw = words::Ddw0::default().encode();
+        let payload = payload::pack(&[ddw], self.cfg.data_format);
+        let rdh = self.mk_rdh(1);
+        let out = PacketT { packet: Packet::framed(rdh, payload), words: vec![WordTruth { index: 0, bytes: ddw, kind: WKind::Ddw0 }], hbf: self.hbf, page: self.page };
+        self.hbf += 1;
+        self.page = 0;
+        self.trig_no = 0;
+        out
+    }
+}
+
 /// Renders the HBF shapes of one link into packets with ground truth.
 pub fn render_link(cfg: &LinkCfg, hbfs: &[HbfShape]) -> Vec<PacketT> {
+    let mut r = LinkRenderer::new(cfg);
     let mut out = Vec::new();
-    let mut pkt_counter: u8 = 0;
-    for (hi, h) in hbfs.iter().enumerate() {
+    for h in hbfs {
         assert!(h.is_valid(), "invalid HBF shape {:?}", h);
-        let orbit = cfg.first_orbit.wrapping_add(hi as u32);
-        let trg = cfg.triggers[hi % cfg.triggers.len()];
-        let rdh_bc = cfg.rdh_bcs[hi % cfg.rdh_bcs.len()];
-        let mut trig_no: u16 = 0; // triggers so far in this HBF
-        let mut open_tdh: Option<Tdh> = None; // the TDH whose event is interrupted
-        let mk_rdh = |page: usize, stop: u8, pc: u8| {
-            let mut r = Rdh::base();
-            r.header_id = cfg.rdh_version;
-            r.fee_id = cfg.fee_id;
-            r.link_id = cfg.link_id;
-            r.packet_counter = pc;
-            r.cru_id = cfg.cru_id;
-            r.dw = cfg.dw;
-            r.bc = rdh_bc;
-            r.orbit = orbit;
-            r.data_format = cfg.data_format;
-            r.trigger_type = trg;
-            r.pages_counter = page as u16;
-            r.stop_bit = stop;
-            r.detector_field = cfg.detector_field;
-            r
-        };
-        for (pi, p) in h.pages.iter().enumerate() {
-            let mut ws: Vec<(Word, WKind)> = Vec::new();
-            let mut next_tdh = |no_data: bool, trig_no: &mut u16| -> Tdh {
-                let bc = rdh_bc + *trig_no * cfg.bc_step;
-                assert!(bc <= 0xdeb, "grammar BC overflow");
-                let first_of_hbf = *trig_no == 0;
-                *trig_no += 1;
-                Tdh {
-                    // the first trigger of the HBF mirrors the RDH (required on page 0 for internal / PhT triggers)
-                    trigger_type: if first_of_hbf || !cfg.internal { (trg & 0xFFF) as u16 } else { 0 },
-                    internal: cfg.internal,
-                    no_data,
-                    continuation: false,
-                    bc,
-                    orbit,
-                }
-            };
-            if let Some((dws, done)) = &p.cont {
-                let t = open_tdh.expect("continuation without an open event");
-                ws.push((words::ihw(cfg.active_lanes_mask()), WKind::IhwCont));
-                ws.push((Tdh { continuation: true, ..t }.encode(), WKind::TdhCont));
-                for d in dws {
-                    ws.push((*d, WKind::Data));
-                }
-                ws.push((Tdt::done(*done), WKind::Tdt));
-                if *done {
-                    open_tdh = None;
-                }
-            } else {
-                ws.push((words::ihw(cfg.active_lanes_mask()), WKind::Ihw));
-            }
-            for (ei, e) in p.evs.iter().enumerate() {
-                let first_after_ihw = ei == 0 && p.cont.is_none();
-                let kind = if first_after_ihw { WKind::Tdh } else { WKind::TdhAfter };
-                match e {
-                    Ev::NoData => {
-                        let t = next_tdh(true, &mut trig_no);
-                        ws.push((t.encode(), kind));
-                    }
-                    Ev::Data { words: dws, cdw, done } => {
-                        let t = next_tdh(false, &mut trig_no);
-                        ws.push((t.encode(), kind));
-                        if *cdw {
-                            ws.push((words::cdw(0x0000_1234_5678, 0), WKind::Cdw));
-                        }
-                        for d in dws {
-                            ws.push((*d, WKind::Data));
-                        }
-                        ws.push((Tdt::done(*done), WKind::Tdt));
-                        if !*done {
-                            open_tdh = Some(t);
-                        }
-                    }
-                }
-            }
-            let raw: Vec<Word> = ws.iter().map(|w| w.0).collect();
-            let payload = payload::pack(&raw, cfg.data_format);
-            let packet = Packet::framed(mk_rdh(pi, 0, pkt_counter), payload);
-            pkt_counter = pkt_counter.wrapping_add(1);
-            out.push(PacketT {
-                packet,
-                words: ws.iter().enumerate().map(|(i, w)| WordTruth { index: i, bytes: w.0, kind: w.1 }).collect(),
-                hbf: hi,
-                page: pi,
-            });
+        for p in &h.pages {
+            out.push(r.next_page(p));
         }
-        // stop page
-        let ddw = words::Ddw0::default().encode();
-        let payload = payload::pack(&[ddw], cfg.data_format);
-        let packet = Packet::framed(mk_rdh(h.pages.len(), 1, pkt_counter), payload);
-        pkt_counter = pkt_counter.wrapping_add(1);
-        out.push(PacketT { packet, words: vec![WordTruth { index: 0, bytes: ddw, kind: WKind::Ddw0 }], hbf: hi, page: h.pages.len() });
+        out.push(r.stop_page());
     }
     out
 }
